@@ -2,11 +2,11 @@
 # Builds the framework offline from files on disk and warms the build cache
 # (including the race-instrumented standard library).
 set -e
-cd /verif
+cd "$(dirname "$0")"
 export GOFLAGS=-mod=mod GOPROXY=off GOSUMDB=off GOTOOLCHAIN=local
 mkdir -p bin evidence replays
-go build -o bin/verifsim ./cmd/verifsim
-(cd simgen && go build -o ../bin/simgen .)
+go build -o bin/verifsim.new ./cmd/verifsim && mv bin/verifsim.new bin/verifsim
+(cd simgen && go build -o ../bin/simgen.new . && mv ../bin/simgen.new ../bin/simgen)
 go build ./...
 go build -race -o /dev/null ./cmd/worker 2>/dev/null || true
 echo "setup ok"
